@@ -1,5 +1,6 @@
 import Model.Resp
 import Model.Mw
+import Model.MwTopo
 import Spec.Resp
 import Spec.RespLayer
 import Drivers.Common
@@ -14,6 +15,8 @@ import Drivers.Common
   layers <L>^<L>^…      layered request, outermost layer first; L = <commits 0|1>~<calls 0|1>~<ops before $next>~<ops after>
   lconn <L>^…           same, over a real connection
   lspec <L>^… / lspecconn <L>^…   the layered reference (Spec.RespLayer)
+  topo <step>,<step>,…  tree of server objects; step = m:<obj>:<prio>:<id> · g:<parent> · r:<obj>
+    → the trace of every route in registration order, `|` between routes (derived objects copy)
 -/
 open Model.Resp
 
@@ -61,6 +64,17 @@ def parseLayer (s : String) : Option Model.RespLayer.Layer :=
 def parseLayers (s : String) : Option (List Model.RespLayer.Layer) :=
   if s.isEmpty then some [] else (s.splitOn "^").mapM parseLayer
 
+def parseTopoStep (s : String) : Option Model.MwTopo.Op :=
+  match s.splitOn ":" with
+  | ["m", o, p, i] => do
+      let o ← o.toNat?
+      let p ← p.toInt?
+      let i ← i.toNat?
+      some (.mw o { prio := p, id := i })
+  | ["g", p] => p.toNat?.map Model.MwTopo.Op.group
+  | ["r", o] => o.toNat?.map Model.MwTopo.Op.route
+  | _ => none
+
 def handle (line : String) : String :=
   match line.splitOn "\t" with
   | ["resp", ops] =>
@@ -90,6 +104,10 @@ def handle (line : String) : String :=
   | ["lspecconn", ls] =>
       match parseLayers ls with
       | some ls => showClient (Spec.RespLayer.runOn true ls)
+      | none => "bad-op"
+  | ["topo", ss] =>
+      match (if ss.isEmpty then some [] else (ss.splitOn ",").mapM parseTopoStep) with
+      | some ops => "|".intercalate ((Model.MwTopo.traces true ops).map (fun t => " ".intercalate (t.map showEv)))
       | none => "bad-op"
   | ["mw", es] =>
       match (if es.isEmpty then some [] else (es.splitOn ",").mapM parseEntry) with
